@@ -114,6 +114,10 @@ func c10Hostile(target string) []c10Doc {
 			d("escapes", `{"u":"http:\/\/example.org\/`+c10Rep(`𐀀\u0000\\`, 8000)+`"}`),
 			d("truncated-escape", `{"u":"http://example.org/\u12`),
 			d("nul", "{\"a\x00\":\"http://example.org/\x00.png\"}"),
+			// string values that are white space only, of every length around the "could this be JSON" threshold, and
+			// padded JSON-looking strings (serialised DOM and rich-text trees are full of them)
+			d("blank-strings", `{"text":"\n        ","a":"","b":" ","c":"    ","d":"     ","e":"      ","t":"\t\t\t\t\t","n":"\r\n\r\n\r\n","u":"http://example.org/b.png"}`),
+			d("padded-json-strings", `["  [\"http://example.org/c.png\"]  "," {\"k\":\"v\"}\n","   {   ","  ]  ","\u00a0\u00a0\u00a0\u00a0\u00a0","\u2003\u2003\u2003\u2003\u2003"]`),
 		}
 	case "xml":
 		return []c10Doc{
